@@ -2392,7 +2392,7 @@ func zRevRangeByScore(n *Nodis, conn *redis.Conn, cmd redis.Command) {
 	key := cmd.Args[0]
 	var mode int
 	if cmd.Args[2][0] == '(' {
-		mode = zset.MaxOpen
+		mode = zset.MinOpen
 	}
 	min, err := redis.FormatFloat64(cmd.Args[2])
 	if err != nil {
@@ -2400,7 +2400,7 @@ func zRevRangeByScore(n *Nodis, conn *redis.Conn, cmd redis.Command) {
 		return
 	}
 	if cmd.Args[1][0] == '(' {
-		mode |= zset.MinOpen
+		mode |= zset.MaxOpen
 	}
 	max, err := redis.FormatFloat64(cmd.Args[1])
 	if err != nil {
